@@ -181,7 +181,7 @@ fn run_plain(sc: &C27Scenario) -> Option<Outcome> {
 
 pub fn check(tier: &str) -> i32 {
     let seed = verif_seed();
-    let n = std::env::var("VERIF_N").ok().and_then(|x| x.parse().ok()).unwrap_or(if tier == "thorough" { 3000 } else { 160 });
+    let n = std::env::var("VERIF_N").ok().and_then(|x| x.parse().ok()).unwrap_or(if tier == "thorough" { 2000 } else { 160 });
     let start = std::time::Instant::now();
     println!("procsim C27 tier={tier} VERIF_SEED={seed} states={n}");
     let jobs = simcore::pool::workers();
